@@ -124,6 +124,9 @@ def matchfile_from_alignment(
 
     if not assume_part_unfolded:
         # unfold score according to alignment
+        # (unfold_part_alignment rewrites the score ids of the alignment it
+        # is given: work on a copy, the caller's alignment stays as it was)
+        alignment = [dict(a) for a in alignment]
         spart = score.unfold_part_alignment(spart, alignment)
 
     # Info Header Lines
